@@ -26,6 +26,7 @@ type Rules struct {
 	VectorAggKeepsSeries  bool // D17: vector aggregation without by/without groups by the input series
 	UnwrapLabelKept       bool // unwrapped label stays part of the series identity
 	UnwrapInvalidAsZero   bool // D50: missing / non-numeric unwrap label counts as a sample of value 0
+	StepFixFirstBucket    bool // step > range: StepFixPlanner keeps, per epoch-aligned step bucket, the earliest range bucket and relabels it to the step bucket start, FixPeriodPlanner then fills from the grid point before that start
 	Shortcut15sGrid       bool // shortcut with a range that is not a multiple of 15 s: entries are attributed by their 15 s bucket start
 	CmpThreshold6Decimals bool // comparison threshold rendered with %f (6 decimals)
 	NegRegexLineLost      bool // D12 (C07): `!~` with a regex that is not a plain literal is rendered like `|~`
@@ -652,6 +653,26 @@ func (rules Rules) Eval(d *Database, q *Query, p Params) (*Ref, error) {
 		ref.Series[key] = &refSeries{Labels: key, Buckets: pts}
 	}
 
+	if stepNs := p.StepMs * 1000000; rules.StepFixFirstBucket && stepNs > rng {
+		for _, s := range ref.Series {
+			nb := map[int64]*refPoint{}
+			var bs []int64
+			for b := range s.Buckets {
+				bs = append(bs, b)
+			}
+			sort.Slice(bs, func(i, j int) bool { return bs[i] < bs[j] })
+			for _, b := range bs {
+				sb := floorDiv(T0+b, stepNs)*stepNs - T0
+				// FixPeriodPlanner reads the relabelled timestamp as the range bucket floor(sb/range)*range
+				sb = floorDiv(T0+sb, rng)*rng - T0
+				if _, ok := nb[sb]; !ok {
+					nb[sb] = s.Buckets[b]
+				}
+			}
+			s.Buckets = nb
+		}
+		ref.TieNeed = map[int64]int{}
+	}
 	return ref, nil
 }
 
